@@ -451,6 +451,9 @@ func init() {
 	nop := func(ex *Exec, fr *frame, fn *ssa.Function, args []Value) Value { return nil }
 	lockOp := func(op string) intrinsic {
 		return func(ex *Exec, fr *frame, fn *ssa.Function, args []Value) Value {
+			if op == "Lock" || op == "RLock" {
+				ex.syncPoint()
+			}
 			if ex.hooks != nil && ex.hooks.onLock != nil {
 				ex.hooks.onLock(args[0].(*Value), op)
 			}
